@@ -1,6 +1,7 @@
 SPECIFICATION Spec
 CONSTANTS
   Vectors <- MCVectors
+  SymEvents = FALSE
   Emit = TRUE
 INVARIANTS TypeOK TreeFilled MeasureIsRate Total ThresholdsInUnitInterval EscapeIsSum NoStall Vector
 CHECK_DEADLOCK FALSE
